@@ -795,10 +795,6 @@ Section Paths.
 End Paths.
 
 (* ==================================================================== non-vacuity *)
-(* a callback given by a schedule: the n-th call is answered by the n-th code, then CONTINUE *)
-Definition sched_fun (codes : list Z) : list event -> Z :=
-  fun hist => nth (length hist - 1) codes 0.
-
 (* {"a":[1,2,3], "b":{"c":null}, "d":true} *)
 Definition demo_tree : jv :=
   JObj [([97], JArr [JInt 1; JInt 2; JInt 3]); ([98], JObj [([99], JNull)]); ([100], JBool true)].
@@ -846,3 +842,40 @@ Proof.
             mkev [0] 2 PObj (KKey [97]) 1; mkev [1] 0 PObj (KKey [98]) 1], (mkev [2] 0 PObj (KKey [100]) 1), [].
     split; reflexivity.
 Qed.
+
+(* ==================================================================== several traversals *)
+(* every traversal of a program — outer, nested at any depth, before or after a nested one —
+   is the reference traversal of its own tree with its own callback *)
+Lemma run_prog_conforms : forall p, run_prog p = spec_prog p.
+Proof.
+  fix IH 1. intros [v codes nested]. cbn [run_prog spec_prog].
+  rewrite visit_conforms_tr. f_equal.
+  induction nested as [|[k q] t IHt]; [reflexivity|].
+  cbn [fst snd]. rewrite IHt, IH. reflexivity.
+Qed.
+
+(* in particular the outer traversal does not depend on what its callback runs meanwhile *)
+Lemma outer_unaffected : forall v codes nested,
+  hd None (run_prog (Prog v codes nested)) = Some (json_c_visit (sched_fun codes) v).
+Proof. reflexivity. Qed.
+
+Lemma run_progs_conforms : forall ps, run_progs ps = flat_map spec_prog ps.
+Proof.
+  induction ps as [|p ps IH]; [reflexivity|].
+  unfold run_progs in *. simpl. rewrite IH, run_prog_conforms. reflexivity.
+Qed.
+
+(* a callback that, in its third call (the first call on a[0]), traverses another tree whose
+   own callback answers ERROR: the outer traversal is the one of [visit_nontrivial] *)
+Lemma prog_nontrivial :
+  run_prog (Prog demo_tree [0; 0; 767; 0; 7547; 7867]
+              [(3, Prog (JArr [JNull; JBool true]) [0; -1] []); (9, Prog JNull [] [])]) =
+  [ Some ([ mkev [] 0 PNone KNone 0;
+            mkev [0] 0 PObj (KKey [97]) 1;
+            mkev [0; 0] 0 PArr (KIdx 0) 2;
+            mkev [0] 2 PObj (KKey [97]) 1;
+            mkev [1] 0 PObj (KKey [98]) 1;
+            mkev [2] 0 PObj (KKey [100]) 1 ], 0);
+    Some ([ mkev [] 0 PNone KNone 0; mkev [0] 0 PArr (KIdx 0) 1 ], -1);
+    None ].
+Proof. vm_compute. reflexivity. Qed.
